@@ -489,7 +489,7 @@ type RecSpan struct{ Start, End int }
 // DrawFaultOffset draws a fault offset by class. recs may be nil (corpus worlds), in which
 // case record-relative classes degrade to "anywhere". It returns the class actually used.
 func DrawFaultOffset(t *tape.Tape, n int, recs []RecSpan) (off int, class int) {
-	class = t.Weighted("fault.class", 1, 4, 6, 4, 2, 3)
+	class = t.Weighted("fault.class", 1, 6, 6, 4, 2, 3)
 	if n == 0 {
 		return 0, OffStart
 	}
